@@ -137,6 +137,8 @@ type batchOpts struct {
 	style   importStyle
 	extraS  []string // extra imports for the S/R files
 	variants []string // runner variants in order; the last is the oracle side (default o,r)
+	onlyCalls bool
+	race      bool // build the runner with the race detector
 	timeout time.Duration
 }
 
@@ -185,6 +187,8 @@ type Record struct {
 	Fuel   bool                     `json:"fuel,omitempty"`
 	Depths map[string]map[int][]int `json:"depths,omitempty"`
 	Direct []string                 `json:"direct,omitempty"`
+	MaxBetween int                  `json:"max_between"`
+	UO     string                   `json:"uo,omitempty"`
 }
 
 func (t *tools) newBatch(progs []*Program, opts batchOpts) (*batch, error) {
@@ -232,7 +236,7 @@ func (b *batch) cleanup() {
 // splitFiles distributes programs over files: regular and _test.go
 func (b *batch) render() *stageFailure {
 	var reg, test []*Program
-	for _, p := range b.progs {
+	for _, p := range expandTwins(b.progs) {
 		if p.TestFile {
 			test = append(test, p)
 		} else {
@@ -410,12 +414,23 @@ func (b *batch) writeRunner() error {
 			continue // functions of _test.go files are not linkable from the runner; they are built and vetted only
 		}
 		for _, e := range p.Entries {
+			if b.opts.onlyCalls && e.Kind != "call" {
+				continue
+			}
 			fmt.Fprintf(&sb, "\trn.RunEntry(rn.Entry{Prog: %q, Name: %q, Unordered: %v, Fuel: %d, Probes: %v, Drive: %v,\n", p.Name, e.Name, p.Unordered, e.Fuel, e.Probes, e.Kind == "drive")
 			fmt.Fprintf(&sb, "\t\tInputs: %s,\n", goIntMatrix(e.Inputs))
 			fmt.Fprintf(&sb, "\t\tScripts: %#v,\n", e.Scripts)
 			sb.WriteString("\t\tVariants: []rn.Variant{\n")
-			for _, v := range variants {
+			vs := variants
+			if p.Twin == "yieldfrom-to-range" && !hasYieldFromInHeader(p) {
+				// the twin's compiled function is one more subject-side variant
+				vs = append([]string{"m"}, variants...)
+			}
+			for _, v := range vs {
 				call := e.Call
+				if v == "m" {
+					call = strings.ReplaceAll(call, "$P"+p.Name, "o."+p.Name+"M")
+				}
 				call = strings.ReplaceAll(call, "$P", v+".")
 				for i := 9; i >= 0; i-- {
 					call = strings.ReplaceAll(call, fmt.Sprintf("$%d", i), fmt.Sprintf("in[%d]", i))
@@ -483,6 +498,14 @@ func (t *tools) runRunner(b *batch, race bool) ([]Record, string, *stageFailure)
 			done = true
 		}
 	}
+	if strings.Contains(rr.out, "WARNING: DATA RACE") {
+		i := strings.Index(rr.out, "WARNING: DATA RACE")
+		rep := rr.out[i:]
+		if len(rep) > 2500 {
+			rep = rep[:2500]
+		}
+		return recs, lastBegin, &stageFailure{Stage: "run", Diag: "race detector report:\n" + rep}
+	}
 	if !done {
 		diag := lastLines(rr.out, 25)
 		if len(diag) > 3000 {
@@ -545,7 +568,7 @@ func (t *tools) runBatchX(progs []*Program, opts batchOpts, reducing bool) (*bat
 		return res, b
 	}
 	t1 := time.Now()
-	recs, crashed, f := t.runRunner(b, false)
+	recs, crashed, f := t.runRunner(b, opts.race)
 	res.runT = time.Since(t1)
 	res.records = recs
 	res.crashed = crashed
